@@ -32,6 +32,9 @@ def call(fn, *a, **kw):
 
 def run(ctx):
     from oslo_utils import versionutils as vu
+    from vf import purity
+    _rec = purity.Recorder(vu, ['convert_version_to_int', 'convert_version_to_str', 'convert_version_to_tuple', 'is_compatible'], every=1)
+    _rec.__enter__()
     quick = ctx.quick
     ctx.assumptions += ['components >= 1000 are outside the statement (the radix-1000 encoding is not injective there)',
                         'big-number arithmetic is Python on both sides: the spec carries the base-1000 digit sequence',
@@ -153,6 +156,8 @@ def run(ctx):
                           'round trip / order broken for %s (%d) vs %s (%d)' % (ta, ia, tb, ib))
     ctx.cov['evaluations'] += z
     ctx.stage('random-components', cases=z)
+    _rec.__exit__()
+    _rec.replay(ctx, 'c17')
     # binding self-test: a wrong radix must be exposed
     import functools
     wrong = functools.reduce(lambda x, y: (x * 100) + y, (1, 2, 3))
